@@ -54,7 +54,18 @@ type AtCall struct {
 	RHS     ast.Expr
 }
 
+type AtStmt struct {
+	Anchor string // normalised source-text prefix of the statement
+	Before bool
+	LHS    string
+	RHS    ast.Expr
+	Assert *Clause // intermediate assertion (proved here, assumed afterwards)
+	Text   string
+	Used   int
+}
+
 type UnitContract struct {
+	AtStmts []*AtStmt
 	PkgDir   string
 	Func     string
 	Region   string // "" for whole function
@@ -400,6 +411,55 @@ func (cs *ContractSet) parseFile(path, pkgdir string) error {
 				return fail(l, "var NAME SORT")
 			}
 			cur.Vars = append(cur.Vars, GhostVar{f[0], f[1]})
+		case strings.HasPrefix(t, "after stmt "), strings.HasPrefix(t, "before stmt "):
+			// after|before stmt "ANCHOR": ghost LHS = EXPR      or      ...: assert[TAGS] NAME: EXPR
+			before := strings.HasPrefix(t, "before stmt ")
+			rest := strings.TrimSpace(strings.TrimPrefix(strings.TrimPrefix(t, "after stmt "), "before stmt "))
+			if !strings.HasPrefix(rest, "\"") {
+				return fail(l, "after stmt \"anchor\": ghost x = e")
+			}
+			j := 1
+			for j < len(rest) && rest[j] != '"' {
+				if rest[j] == '\\' {
+					j++
+				}
+				j++
+			}
+			if j >= len(rest) {
+				return fail(l, "unterminated anchor")
+			}
+			anchor, _ := strconv.Unquote(rest[:j+1])
+			stmt := strings.TrimSpace(rest[j+1:])
+			stmt = strings.TrimSpace(strings.TrimPrefix(stmt, ":"))
+			if strings.HasPrefix(stmt, "assert") {
+				m := clauseHead.FindStringSubmatch("prove" + strings.TrimPrefix(stmt, "assert"))
+				if m == nil {
+					return fail(l, "assert[tags] name: expr")
+				}
+				e, err := parseSpecExpr(m[4])
+				if err != nil {
+					return fail(l, "%v", err)
+				}
+				c := &Clause{Kind: "assert", Tags: parseTags(m[2]), Name: m[3], Text: m[4], Expr: e, Line: l.line, File: path}
+				if c.Name == "" {
+					c.Name = fmt.Sprintf("a%d", len(cur.AtStmts)+1)
+				}
+				for _, tg := range c.Tags {
+					cur.Tags[tg] = true
+				}
+				cur.AtStmts = append(cur.AtStmts, &AtStmt{Anchor: normWS(anchor), Before: before, Assert: c, Text: stmt})
+				break
+			}
+			stmt = strings.TrimSpace(strings.TrimPrefix(stmt, "ghost"))
+			eq := strings.Index(stmt, "=")
+			if eq < 0 {
+				return fail(l, "ghost statement must be x = e")
+			}
+			rhs, err := parseSpecExpr(stmt[eq+1:])
+			if err != nil {
+				return fail(l, "%v", err)
+			}
+			cur.AtStmts = append(cur.AtStmts, &AtStmt{Anchor: normWS(anchor), Before: before, LHS: strings.TrimSpace(stmt[:eq]), RHS: rhs, Text: stmt})
 		case strings.HasPrefix(t, "at call "), strings.HasPrefix(t, "after call "):
 			// at call NAME[#n]: ghost LHS = EXPR
 			isAfter := strings.HasPrefix(t, "after call ")
